@@ -2,6 +2,7 @@
 bounded cache, sub-tolerance queries short-circuited.  (DESIGN.md section C07.)"""
 import ast
 import itertools
+from fractions import Fraction
 
 from .. import astq
 from ..errors import AnalysisError
@@ -578,36 +579,62 @@ def r07_4(ctx):
     if setitem is None:
         raise AnalysisError("_LRUDict.__setitem__ vanished", where=BI)
     rep.analysed(setitem)
-    sname = setitem.params[0]
-    n_paths = 0
-    bad = []
-    for conds, events, term in _paths(setitem.node.body):
-        n_paths += 1
-        stores = [e for e in events if "__setitem__" in ast.unparse(e) and "super" in ast.unparse(e)]
-        dels = [e for e in events if isinstance(e, ast.Delete) and any(
-            isinstance(t, ast.Subscript) and isinstance(t.value, ast.Name) and t.value.id == sname for t in e.targets)]
-        pops = [e for e in events if ".pop(" in ast.unparse(e) and isinstance(e, ast.Expr)]
-        if not stores:
-            continue
-        # small model: invariant n <= M before; is there a feasible (n, M, present) with n' > M afterwards?
-        for M, present in itertools.product(range(1, 5), (False, True)):
-            for n in range(0, M + 1):
-                if present and n == 0:
-                    continue
-                if all(_eval_guard(t, n, M, present, sname) == pol for t, pol in conds):
-                    n_after = n - len(dels) + (0 if present else 1)
-                    if n_after > M:
-                        bad.append((conds, n, M, present))
+    # small-model execution: the class is instantiated abstractly (its own __init__) for several bounds and driven
+    # through its own __setitem__ / __getitem__ by insertion sequences that mix new keys with keys already present;
+    # after every store the number of entries must be <= max_size, the key just stored must be retrievable, and every
+    # retrievable key must map to the value stored for it last (the cache may forget, it may never alter)
+    from ..interp import Interp, Hooks, SimRaise
+    bounds = (1, 2, 3, 4, 5, 8) if ctx.tier == "quick" else (1, 2, 3, 4, 5, 6, 7, 8, 9, 12, 16, 45)
+    n_ops, bad = 0, None
+    for M in bounds:
+        patterns = {
+            "fresh keys": [("k%d" % i) for i in range(3 * M + 4)],
+            "fresh / repeat newest": [("k%d" % (i // 2)) for i in range(4 * M + 6)],
+            "fresh / repeat oldest": None,
+        }
+        for label, seq in patterns.items():
+            it = Interp(model, Hooks())
+            obj = it.instantiate(lru, [Fraction(M)], {})
+            truth = {}
+            steps = seq if seq is not None else range(4 * M + 6)
+            fresh = 0
+            for i, k in enumerate(steps):
+                if seq is None:
+                    store_now = list(it.dict_store(obj).keys())
+                    if i % 2 == 1 and store_now:
+                        k = store_now[0]
+                    else:
+                        k = "k%d" % fresh
+                        fresh += 1
+                v = ("value", k, i)
+                try:
+                    it.call_function(setitem, [obj, k, v], {})
+                except SimRaise as e:
+                    bad = bad or (M, label, i, f"storing {k!r} raises {e.exc_name}")
+                    break
+                truth[k] = v
+                n_ops += 1
+                store = it.dict_store(obj)
+                if len(store) > M:
+                    bad = bad or (M, label, i, f"{len(store)} entries after storing {k!r}")
+                    break
+                if store.get(k) != v:
+                    bad = bad or (M, label, i, f"{k!r} is not retrievable right after it was stored")
+                    break
+                wrong = [kk for kk, vv in store.items() if truth.get(kk) != vv]
+                if wrong:
+                    bad = bad or (M, label, i, f"key {wrong[0]!r} maps to a value that was not the last one stored for it")
+                    break
     construct = f"{setitem.key}::R07.4::lru-bound"
     if bad:
-        conds, n, M, present = bad[0]
+        M, label, i, what = bad
         rep.fail("R07.4", astq.loc(setitem), construct,
-                 f"on the path [{' and '.join(astq.cond_text(t, p) for t, p in conds)}] a store with len={n}, "
-                 f"max_size={M}, key {'present' if present else 'absent'} leaves {n + 1} > max_size entries: the cache "
-                 f"exceeds cache_size", facts={"paths": n_paths})
+                 f"_LRUDict(max_size={M}), insertion pattern `{label}`, operation {i}: {what}: the cache exceeds "
+                 f"cache_size or alters a value", facts={"operations": n_ops})
     else:
-        rep.ok("R07.4", astq.loc(setitem), construct, f"{n_paths} paths x small model (max_size 1..4): len <= max_size",
-               facts={"paths": n_paths})
+        rep.ok("R07.4", astq.loc(setitem), construct,
+               f"{n_ops} stores over max_size in {bounds} x 3 insertion patterns: len <= max_size, values unaltered",
+               facts={"operations": n_ops})
     # _EmptyDict stores nothing
     empty = model.cls(BI, "_EmptyDict")
     es = empty.methods.get("__setitem__")
